@@ -222,6 +222,8 @@ def classify(parsed, rc, timed_out, text, expect_covers=None, canary=False):
         return "inconclusive", "timeout"
     if re.search(r"error(\[E\d+\])?: ", text) and "could not compile" in text:
         return "inconclusive", "build: " + "; ".join(re.findall(r"error(?:\[E\d+\])?: (.*)", text)[:3])
+    if "Out of memory" in text or "CBMC failed with status" in text or "Solver ran out of memory" in text:
+        return "inconclusive", "solver out of memory / aborted"
     if parsed["status"] is None:
         if "memory" in text.lower() or "std::bad_alloc" in text or rc in (134, 139):
             return "inconclusive", "out of memory / solver abort (rc=%d)" % rc
